@@ -219,11 +219,11 @@ func UserInfo(ctx context.Context, token string) (jwt.Claims, error) {
 		}
 	}
 
-	// go-jose doesnt verify the expiry
-	err := standard.Validate(jwt.Expected{
+	// go-jose doesnt verify the expiry (no leeway: an expired token is refused)
+	err := standard.ValidateWithLeeway(jwt.Expected{
 		Issuer: "rdpgw",
 		Time:   time.Now(),
-	})
+	}, 0)
 
 	if err != nil {
 		log.Printf("token validation failed due to %s", err)
@@ -246,11 +246,11 @@ func QueryInfo(ctx context.Context, tokenString string, issuer string) (string, 
 		return "", errors.New("cannot verify signature")
 	}
 
-	// go-jose doesnt verify the expiry
-	err = standard.Validate(jwt.Expected{
+	// go-jose doesnt verify the expiry (no leeway: an expired token is refused)
+	err = standard.ValidateWithLeeway(jwt.Expected{
 		Issuer: issuer,
 		Time:   time.Now(),
-	})
+	}, 0)
 
 	if err != nil {
 		log.Printf("token validation failed due to %s", err)
